@@ -7,8 +7,8 @@ WHATS = {"registration-race/notification-lost", "lost-wakeup", "lost-wakeup-queu
 
 def run(ctx):
     quick = ctx.tier == "quick"
-    rtlib.model_check(ctx, ["A", "B", "F", "N", "G"] if quick else rtlib.MC_CFGS)
-    behs, out = rtlib.drive(ctx, ["A", "B", "C", "D", "E", "F", "G"], 210 if quick else 3500, 70 if quick else 110, hook_prop="C05")
+    rtlib.model_check(ctx, ["A", "B", "F", "N", "G", "H"] if quick else rtlib.MC_CFGS)
+    behs, out = rtlib.drive(ctx, ["A", "B", "C", "D", "E", "F", "G", "H"], 240 if quick else 4000, 70 if quick else 110, hook_prop="C05")
     recs, traces, bad = rtlib.judge(ctx, behs, out, WHATS, "C05")
     rtlib.selftest(ctx, traces, bad)
     # the repository's own controller test suites with the pipeline hooks on: every hand-over of the dedup map is judged
